@@ -164,6 +164,58 @@ def compare(ref, out):
     return [i for i in range(min(len(ref), len(out))) if ref[i] != out[i]] + ([min(len(ref), len(out))] if len(ref) != len(out) else [])
 
 
+def _gen_digest():
+    import hashlib
+    h = hashlib.sha256()
+    g = os.path.join(VERIF, "lean", "Bee2V", "Gen")
+    for f in sorted(os.listdir(g)):
+        if f.endswith(".lean"):
+            h.update(f.encode()); h.update(open(os.path.join(g, f), "rb").read())
+    return h.hexdigest()
+
+
+def confirm_vs_model(ctx, disagreements, areas, streams):
+    """Failure path only.  An area's Lean driver is built from generated files (lean/Bee2V/Gen) that the area's own
+    check regenerates from the source; if that check last ran on a DIFFERENT tree (e.g. a patched scratch copy) the
+    driver is stale and a "vs-model" difference says nothing about the current code.  Before reporting such a
+    difference, regenerate the area's model from the current source; if that changes the generated files, rebuild the
+    driver and keep only the differences that persist.  Anything that goes wrong here keeps the disagreement."""
+    bad_areas = sorted(set(d[0] for d in disagreements if d[2] == "vs-model"))
+    if not bad_areas:
+        return disagreements
+    drv = {a[0]: a[2] for a in areas}
+    out = [d for d in disagreements if d[2] != "vs-model"]
+    for area in bad_areas:
+        mine = [d for d in disagreements if d[2] == "vs-model" and d[0] == area]
+        try:
+            mod = importlib.import_module(area)
+            if not hasattr(mod, "regen"):
+                out += mine; continue
+            before = _gen_digest()
+            mod.regen(ctx)
+            if _gen_digest() == before:
+                out += mine; continue          # the model was current: the difference stands
+            ok, log = ctx.lake_build([drv[area]])
+            if not ok:
+                out += mine; continue
+            kept = 0
+            for d in mine:
+                w = 32 if d[1] == "w32" else 64
+                ops = streams[(area, w)]
+                idx = ops.index(d[3])
+                l_out, lerr, lrc = ctx.run_lines(ctx.driver(drv[area]), ops)
+                if idx < len(l_out) and l_out[idx] == d[4]:
+                    continue                    # agrees with the regenerated model
+                out.append((d[0], d[1], d[2], d[3], d[4], l_out[idx] if idx < len(l_out) else ""))
+                kept += 1
+            ctx.notes.append("area %s: generated model was stale (left by a run on another tree); regenerated from the current source, "
+                             "%d of %d vs-model differences persist" % (area, kept, len(mine)))
+        except Exception as e:  # fail closed
+            ctx.notes.append("area %s: stale-model confirmation failed (%s: %s); differences kept" % (area, type(e).__name__, e))
+            out += mine
+    return out
+
+
 def run(ctx):
     T0 = time.time()
     proof_ok, log = ctx.prove(["Bee2V.C19.Props", "Bee2V.C19.Props2"], PROPS, drivers=[])
@@ -272,6 +324,7 @@ def run(ctx):
         list(ex.map(do_area, list(enumerate(areas))))
     total = tot[0]
     ctx.cov["t_replay_s"] = round(time.time() - T0, 1)
+    disagreements = confirm_vs_model(ctx, disagreements, areas, streams)
     disagreements.sort(key=lambda d: (d[0], d[1], d[2], d[3]))
     ctx.cov["ops_total"] = total
     ctx.cov["ops_per_area_config"] = per
